@@ -225,6 +225,7 @@ func (r *Report) Finish(repo string) int {
 
 	violations, obligations, discharged, knownHits := 0, 0, 0, 0
 	seenKF := map[string]bool{}
+	perRuleViol := map[string]int{}
 	var lines []string
 	for i := range r.Obs {
 		o := &r.Obs[i]
@@ -246,12 +247,21 @@ func (r *Report) Finish(repo string) int {
 				continue
 			}
 			violations++
+			perRuleViol[o.Rule]++
+			if perRuleViol[o.Rule] > 5 {
+				continue // counted, but only the first five constructs per rule get a replay file and a line
+			}
 			path := filepath.Join(vdir, fmt.Sprintf("%s-%d.json", r.Prop, violations))
 			rp := Replay{Property: r.Prop, Rule: o.Rule, RuleText: ruleText[o.Rule], Key: o.Key, Pos: o.Pos, Verdict: o.Status, Detail: o.Detail, Tier: r.Tier, Repo: repo}
 			b, _ := json.MarshalIndent(rp, "", " ")
 			_ = os.WriteFile(path, b, 0o644)
 			fmt.Fprintf(os.Stderr, "%s %s | %s @ %s: %s\n", o.Status, o.Rule, o.Key, o.Pos, o.Detail)
 			lines = append(lines, fmt.Sprintf("VIOLATION property=%s replay=%s", r.Prop, path))
+		}
+	}
+	for rule, n := range perRuleViol {
+		if n > 5 {
+			fmt.Fprintf(os.Stderr, "%s: %d further failing constructs not listed individually\n", rule, n-5)
 		}
 	}
 	for key, k := range openKF {
